@@ -5,6 +5,7 @@ from __future__ import annotations
 
 from ..linform import lin, show_lin
 from ..program import AnalysisError
+from ..rules import is_call, mentions_any
 from ..terms import C, P, is_t, mk_proj, show
 
 ZERO = {}
@@ -76,6 +77,28 @@ def cond_has(conds, pred, polarity=None):
     return any(pred(t) and (polarity is None or pol == polarity) for t, pol in conds)
 
 
+def main_ret(obs, res, inst, where, props):
+    """An edit method may return the INPUT trace unchanged on an early path (an identity shortcut).  Such an arm is sound only when nothing can have changed:
+    its guard must contain static_check_no_change(argdiffs) over the WHOLE argdiffs, and it must return weight 0.  Shortcut arms are judged here
+    (TAG-SHORTCUT-GUARD) and the remaining, constructing arm is returned for the ordinary analysis."""
+    arms = list(res.returns)
+    if len(arms) <= 1:
+        return res.ret
+    keep = []
+    for conds, t in arms:
+        if is_t(t, "tuple") and len(t[1]) == 4 and t[1][0] == P("trace"):
+            whole = any(pol and mentions_any(c, lambda x: is_call(x, "static_check_no_change") and x[2] == (P("argdiffs"),)) for c, pol in conds)
+            reqg = any(pol and mentions_any(c, lambda x: x in (P("selection"), P("constraint"), P("edit_request"), P("request"))) for c, pol in conds)
+            obs.add(set(props) | {"C08"}, "TAG-SHORTCUT-GUARD", inst + "/identity-shortcut", whole and reqg and is_zero(t[1][1]), construct="early return of the unchanged input trace",
+                    derived=f"returns the input trace with weight {show(t[1][1])[:40]} under {[show(c)[:90] for c, pol in conds if pol]}",
+                    expected="only under Diff.static_check_no_change(argdiffs) - ALL arguments unchanged - AND a test that the request itself is empty, and with weight 0", where=where)
+        else:
+            keep.append(t)
+    if len(keep) == 1:
+        return keep[0]
+    return res.ret
+
+
 def tuple_n(t, n, what):
     if not is_t(t, "tuple") or len(t[1]) != n:
         raise AnalysisError(f"{what}: expected a {n}-tuple, got {show(t)[:120]}")
@@ -114,7 +137,7 @@ def run_for(chk, prog, pid, analyses):
 
 def dispatch_roles(obs, props, cls_name, res, fields, where, trace_name="trace"):
     """every arm of an `edit` dispatcher forwards (key, trace, <the request's own field(s)>, argdiffs) to its helper, each in its role"""
-    from ..rules import is_mcall
+    from ..rules import mentions_any, is_mcall
     from ..terms import P, is_t, show
 
     for conds, t in res.returns:
